@@ -9,6 +9,9 @@ use crate::{
 pub(crate) struct SourceLineRanges {
     pub(crate) line_number_end: usize,
     pub(crate) token_ranges: Option<Vec<Range<usize>>>,
+    /// If the line failed to tokenize, the range of the error, extended so
+    /// that it ends on a character boundary.
+    pub(crate) tokenization_error_range: Option<Range<usize>>,
     pub(crate) length: usize,
 }
 
@@ -81,7 +84,11 @@ impl SourceFileMap {
             DiagnosticMessage::Error(file_line_number, err) => {
                 match &err.error {
                     InterpreterError::Syntax(SyntaxError::Tokenization(t)) => {
-                        let range = t.string_range(self.file_line_ranges[*file_line_number].length);
+                        let source_line_ranges = &self.file_line_ranges[*file_line_number];
+                        let range = match &source_line_ranges.tokenization_error_range {
+                            Some(range) => range.clone(),
+                            None => t.string_range(source_line_ranges.length),
+                        };
                         return Some((*file_line_number, range));
                     }
                     _ => {}
